@@ -266,6 +266,14 @@ FRAGS = [
     # 23 unless / call / comment
     '<dtml-unless c>U<dtml-var x></dtml-unless><dtml-call hook>'
     '<dtml-comment>never <dtml-var nothing></dtml-comment>',
+    # 25 a comparison function looked up by name in the namespace of the
+    # render (sort=key/NAME), literally and through sort_expr
+    '<dtml-in seq sort="a/cmpf"><dtml-var a>,</dtml-in>;'
+    '<dtml-in mseq mapping sort_expr="sk2"><dtml-var a>,</dtml-in>',
+    # 26 a sort_expr that may give no key at all, with reverse
+    '<dtml-in seq sort_expr="sk" reverse><dtml-var a>;</dtml-in>|'
+    '<dtml-in pairs sort_expr="sk3" reverse_expr="rv">'
+    '<dtml-var sequence-key>;</dtml-in>',
 ]
 HTML_ONLY = ('<dtml-var expr=', '&dtml', '<dtml-var "')
 SUB_SRC = '<dtml-in seq sort_expr="sk"><dtml-var a></dtml-in><dtml-var dflt>'
@@ -293,7 +301,26 @@ class Rec:
 
 
 SORT_SPECS = ['a', 'n', 'n,a', 'a/nocase', 'n/cmp/desc,a', 'a/cmp/desc',
-              'n,a/nocase/desc', '']
+              'n,a/nocase/desc', '', 'a/cmpf', 'n,a/cmpf/desc', None]
+
+
+def _c(x, y):
+    return (x > y) - (x < y)
+
+
+def cmp_rev(x, y):
+    return _c(y, x)
+
+
+def cmp_digits(x, y):
+    return _c(str(x)[1:], str(y)[1:])
+
+
+def cmp_nocase_rev(x, y):
+    return _c(str(y).lower(), str(x).lower())
+
+
+CMPF = {'rev': cmp_rev, 'digits': cmp_digits, 'ncrev': cmp_nocase_rev}
 
 
 def gen_inputs(r):
@@ -306,7 +333,10 @@ def gen_inputs(r):
             'b': r.choice(['', '62', 'c3a9', 'e9']),
             'n2': r.choice([0, 2, 7]), 'c': r.choice([0, 1, 'c', '']),
             'via': r.choice(['kw', 'mapping', 'client']),
-            'zz': r.choice([None, None, 'Z', 'zz2'])}
+            'zz': r.choice([None, None, 'Z', 'zz2']),
+            'cmpf': r.choice(sorted(CMPF)),
+            'sk2': r.choice(['a/cmpf', 'a/cmpf/desc', 'n,a/cmpf', 'a']),
+            'sk3': r.choice([None, None, ''])}
 
 
 class Hook:
@@ -343,7 +373,9 @@ def build_inputs(spec, plan, template):
             'sk': spec['sk'], 'rv': spec['rv'],
             'st': spec['st'], 'sz': spec['sz'], 'x': spec['x'],
             'b': bytes.fromhex(spec['b']), 'n2': spec['n2'], 'c': spec['c'],
-            'obj': Rec('obj', a='oa', n=9), 'hook': hook}
+            'obj': Rec('obj', a='oa', n=9), 'hook': hook,
+            'cmpf': CMPF[spec.get('cmpf', 'rev')],
+            'sk2': spec.get('sk2', 'a'), 'sk3': spec.get('sk3', '')}
     if spec.get('zz') is not None:
         data['zz'] = spec['zz']
     watch = [seq, mseq, data, data['pairs']] + mseq + \
